@@ -269,7 +269,7 @@ func TestCancel(t *testing.T) {
 				mockBaseWorkUnit.EXPECT().CancelContext()
 				mockBaseWorkUnit.EXPECT().GetStatusLock().Return(&sync.RWMutex{}).Times(2)
 				mockBaseWorkUnit.EXPECT().GetStatusWithoutExtraData().Return(&workceptor.StatusFileData{})
-				mockBaseWorkUnit.EXPECT().UpdateFullStatus(gomock.Any())
+				mockBaseWorkUnit.EXPECT().UpdateBasicStatus(gomock.Any(), gomock.Any(), gomock.Any())
 
 				c := exec.Command("sleep", "30")
 				processPid := make(chan int)
